@@ -823,7 +823,13 @@ func (i *IRCServer) generateCaptchaURL(s *Session, purpose string) string {
 		base64.StdEncoding.EncodeToString(mac.Sum(nil)),
 	}, ".")
 
-	u, _ := url.Parse(i.Config.CaptchaURL)
+	u, err := url.Parse(i.Config.CaptchaURL)
+	if err != nil {
+		// The configuration is not validated when it is posted. A captcha
+		// URL which does not parse must not panic here: that would take the
+		// whole network down with the next login.
+		return i.Config.CaptchaURL + "#" + parts
+	}
 	if u.Path == "" {
 		u.Path = "/"
 	}
